@@ -6,6 +6,7 @@ mod c15;
 mod c16;
 mod c20;
 mod c20miri;
+mod c20vol;
 #[cfg(feature = "shuttled")]
 mod c20conc;
 mod coord;
@@ -76,6 +77,34 @@ fn selfcheck(runs: u64) -> i32 {
             }
         }
     }
+    {
+        // the facts the oracles read off a syntax tree, computed from the tree and from its Debug text
+        // (the fallback used when the walk over the tree no longer builds), must agree
+        let (mut trees, mut differ) = (0u64, 0u64);
+        for index in 0..1500u64 {
+            for prop in [&c15::PROP, &c20::PROP] {
+                let mut rng = rng::Rng::new(coord::run_seed(seed, prop.id, index));
+                let sc = (prop.scenario)(&mut rng, Tier::Quick);
+                for text in sc.subjects.iter().take(3) {
+                    if let Ok((_, tree)) = std::panic::catch_unwind(|| lipe_find_parser::parse(text)).unwrap_or_else(|_| lipe_find_parser::parse("-false")) {
+                        trees += 1;
+                        let a = astwalk::tree_facts3(&tree);
+                        let b = astwalk::facts_from_dump(&format!("{tree:?}"));
+                        if a != b {
+                            differ += 1;
+                            if differ <= 3 {
+                                println!("  tree facts differ for {text:?}: walk {a:?}, dump {b:?}");
+                            }
+                        }
+                    }
+                }
+            }
+        }
+        println!("selfcheck: tree facts from the walk{} and from the Debug text agree on {} of {trees} parsed inputs", if astwalk::ENABLED { "" } else { " (not built: both from the text)" }, trees - differ);
+        if differ > 0 {
+            bad += 1;
+        }
+    }
     println!("selfcheck: stub runtime and oracle self-tests (hand-written programs)");
     for (name, ok, detail) in c16::selftests() {
         println!("  {} {name}: {detail}", if ok { "ok  " } else { "FAIL" });
@@ -140,15 +169,30 @@ fn real_main() -> i32 {
         Some("check") if args.len() >= 3 => {
             let tier = Tier::parse(&args[2]);
             if let Some(p) = hist_prop(&args[1]) {
-                #[cfg(feature = "shuttled")]
                 if p.id == "C20" {
                     let post = |seed: u64, tier: Tier| -> Result<histcheck::PostPass, String> {
-                        let r = c20conc::pass(seed, tier)?;
-                        let mut evidence = r.evidence;
-                        let (mut exit, mut violations) = (r.exit, r.violations);
+                        #[cfg(feature = "shuttled")]
+                        let (mut evidence, mut exit, mut violations) = {
+                            let r = c20conc::pass(seed, tier)?;
+                            (r.evidence, r.exit, r.violations)
+                        };
+                        #[cfg(not(feature = "shuttled"))]
+                        let (mut evidence, mut exit, mut violations) = {
+                            println!("note: concurrent pass of C20 skipped (the rewritten copy of the library did not build)");
+                            let mut m = serde_json::Map::new();
+                            m.insert("status".into(), serde_json::json!("skipped: the rewritten copy of the library did not build"));
+                            (m, 0, 0u64)
+                        };
                         if exit == 0 && std::env::var("VERIF_PROFILE_PASS").is_err() {
                             let m = c20miri::pass(tier == Tier::Quick)?;
                             evidence.insert("miri_pass".into(), serde_json::Value::Object(m.evidence));
+                            exit = m.exit;
+                            violations += m.violations;
+                        }
+                        if exit == 0 && std::env::var("VERIF_PROFILE_PASS").is_err() {
+                            // more than 4 GiB rendered through one compiled expression
+                            let m = c20vol::pass(seed, tier == Tier::Quick)?;
+                            evidence.insert("volume_pass".into(), serde_json::Value::Object(m.evidence));
                             exit = m.exit;
                             violations += m.violations;
                         }
@@ -164,10 +208,6 @@ fn real_main() -> i32 {
                         Ok(histcheck::PostPass { exit: r.exit, violations: r.violations, name: "concurrent_pass", evidence: r.evidence })
                     };
                     return histcheck::check(p, tier, Some(&post));
-                }
-                #[cfg(not(feature = "shuttled"))]
-                if p.id == "C20" {
-                    println!("note: concurrent pass of C20 skipped (the rewritten copy of the library did not build)");
                 }
                 return histcheck::check(p, tier, None);
             }
@@ -226,6 +266,9 @@ fn real_main() -> i32 {
             };
             let parsed = serde_json::from_str::<serde_json::Value>(&text).ok();
             let prop = parsed.as_ref().and_then(|v| v["property"].as_str().map(String::from)).unwrap_or_default();
+            if parsed.as_ref().map_or(false, |v| v["kind"].as_str() == Some("volume")) {
+                return c20vol::replay_file(path, expect);
+            }
             if parsed.as_ref().map_or(false, |v| v["kind"].as_str() == Some("miri")) {
                 return c20miri::replay_file(path, expect);
             }
@@ -246,6 +289,10 @@ fn real_main() -> i32 {
             }
             eprintln!("harness error: replay file names unknown property {prop:?}");
             2
+        }
+        Some("volume") if args.len() >= 4 => {
+            let n = |i: usize| args[i].parse::<u64>().unwrap_or(1);
+            c20vol::child(n(1), n(2), n(3))
         }
         Some("selfcheck") => selfcheck(args.get(1).and_then(|s| s.parse().ok()).unwrap_or(2000)),
         Some("outputs") if args.len() >= 3 => histcheck::outputs_cmd(Path::new(&args[1]), args[2].parse().unwrap_or(0)),
